@@ -187,9 +187,34 @@ func runSched(c *core.Case, st *core.CaseStats, seed int64, sched [][]int) {
 	if len(o.Occ) > 1 {
 		st.Nontrivial++
 	}
+	// A pattern that is itself not valid UTF-8 (a stray continuation byte) can occur byte-wise INSIDE a rune of the
+	// text; the property speaks of patterns made of runes, so for such an occurrence only soundness is required
+	// (nothing reported that is not a byte-for-byte occurrence). An occurrence is rune-aligned when the text, decoded
+	// from its start, falls into the same runes as the pattern does. Occurrences of valid patterns always are.
+	bound := map[int]bool{0: true}
+	for i := 0; i < len(in); {
+		_, sz := utf8.DecodeRuneInString(in[i:])
+		i += sz
+		bound[i] = true
+	}
+	allAligned := true
+	for _, x := range o.Occ {
+		p, at := ps[x/100-1], x%100
+		if !bound[at] {
+			allAligned = false
+		}
+		for i := 0; i < len(p); {
+			_, sz := utf8.DecodeRuneInString(p[i:])
+			_, sz2 := utf8.DecodeRuneInString(in[at+i:])
+			if sz != sz2 {
+				allAligned = false
+			}
+			i += sz
+		}
+	}
 	if prop == "C05" {
 		var m bool
-		if guard("Match", func() { m = t.Match(in) }) && m != o.Match {
+		if guard("Match", func() { m = t.Match(in) }) && (m != o.Match) && (allAligned || m) {
 			rep("Match", "value", o.Match, m)
 		}
 		var fa []string
@@ -198,8 +223,22 @@ func runSched(c *core.Case, st *core.CaseStats, seed int64, sched [][]int) {
 			for _, x := range o.Occ {
 				want = append(want, ps[x/100-1])
 			}
-			if !eq(sortedCopy(fa), sortedCopy(want)) {
-				rep("FindAll", "value", sortedCopy(want), sortedCopy(fa))
+			if allAligned {
+				if !eq(sortedCopy(fa), sortedCopy(want)) {
+					rep("FindAll", "value", sortedCopy(want), sortedCopy(fa))
+				}
+			} else { // soundness: a sub-multiset of the byte-wise occurrences
+				left := map[string]int{}
+				for _, w := range want {
+					left[w]++
+				}
+				for _, g := range fa {
+					left[g]--
+					if left[g] < 0 {
+						rep("FindAll", "value", map[string]interface{}{"sub_multiset_of": sortedCopy(want)}, sortedCopy(fa))
+						break
+					}
+				}
 			}
 		}
 		return
@@ -211,7 +250,15 @@ func runSched(c *core.Case, st *core.CaseStats, seed int64, sched [][]int) {
 		runs = append(runs, runT{x / 10000, (x / 100) % 100, x % 100})
 	}
 	sort.Slice(runs, func(i, j int) bool { return runs[i].s < runs[j].s })
-	if utf8.ValidString(in) {
+	// runes of the text the way Go decodes it (an invalid byte is a rune of its own); the mask clause is exact
+	// whenever every covered stretch begins and ends on such a rune boundary (always, for text that is valid UTF-8)
+	aligned := allAligned
+	for _, r := range runs {
+		if !bound[r.s] || !bound[r.e] {
+			aligned = false
+		}
+	}
+	if aligned {
 		mask := []rune{'*', 'é', '中'}[variant%3]
 		var got string
 		if guard("ReplaceWithMask", func() { got = t.ReplaceWithMask(in, mask) }) {
@@ -234,7 +281,7 @@ func runSched(c *core.Case, st *core.CaseStats, seed int64, sched [][]int) {
 	}
 	repl := []string{"#", "<>", "", "#"}[variant%4]
 	var got string
-	if guard("Replace", func() { got = t.Replace(in, repl) }) {
+	if guard("Replace", func() { got = t.Replace(in, repl) }) && allAligned {
 		// untouched bytes in order, and per covered stretch between 1 and n copies of the replacement
 		ok := true
 		rest := got
